@@ -98,7 +98,8 @@ Section C17.
       numbers in members that are not read) *)
   Theorem C17_post_body_and_ws_payload_agree : forall text kvs p id o x,
     parse_std text = PTree (JObj kvs) -> parse_jsi text = PTree (JObj kvs) ->
-    has_range (JObj kvs) = false -> single_string_members kvs = true ->
+    fold_members StdJson kvs = fold_members Jsoniter kvs ->      (* no member name containing U+017F, U+0130 *)
+    has_range (JObj kvs) = false -> single_string_members (fold_members StdJson kvs) = true ->
     decode fixed parse_std parse_jsi (WHttp {| e_method := m_post; e_media := mt_json; e_url := []; e_body := text |}) = Some (o, x) ->
     decode fixed parse_std parse_jsi (WWs p {| f_type := start_type p; f_id := id; f_payload := Some text |}) = Some (o, None).
   Proof. exact (post_body_and_ws_payload_agree parse_std parse_jsi). Qed.
